@@ -33,6 +33,10 @@ SCHEMA = {
         "fs": ("derived", lambda ex, st, o: 1 / fld("TimeSeries", "dt_in_seconds", R)(o.id)),
         "fnyq": ("derived", lambda ex, st, o: z3.RealVal("1/2") * (1 / fld("TimeSeries", "dt_in_seconds", R)(o.id))),
     },
+    "HvsrTraditional": {
+        "valid_peak_boolean_mask": "boolarr", "valid_window_boolean_mask": "boolarr",
+        "_main_peak_frq": "arr", "_main_peak_amp": "arr", "n_curves": "int",
+    },
     "SeismicRecording3C": {
         "ns": ("obj", "TimeSeries"), "ew": ("obj", "TimeSeries"), "vt": ("obj", "TimeSeries"),
         "degrees_from_north": "real",
@@ -89,6 +93,13 @@ def sobj_getattr(ex, st, o, attr, node=None):
         cache[key] = ref
         st.env["__sobj_arrays"] = cache
         return ref
+    if kind == "boolarr":
+        n = arr_len(o.cls, attr, o.id)
+        j = z3.Int("j!so")
+        ref = ex.alloc_arr(st, (n,), z3.Lambda([j], fld2(o.cls, attr, B)(o.id, j)), "bool", owner=f"{o.owner}.{attr}", tag=f"{o.cls}_{attr}")
+        # ghost: number of True entries (A-NP-SUM on a boolean mask), a function of the object
+        st.heap[ref.sid].count_term = fld(o.cls, attr + "_count", I)(o.id)
+        return ref
     if isinstance(kind, tuple) and kind[0] == "obj":
         return SObj(kind[1], fld(o.cls, attr, I)(o.id), owner=f"{o.owner}.{attr}")
     if isinstance(kind, tuple) and kind[0] == "derived":
@@ -121,7 +132,7 @@ class SymListData:
 
 def new_symlist(ex, st, cls, length=None, arr=None, owner="fresh", name="list", elem_sort=None):
     sid = ex.new_sid(name)
-    sort = I if cls is not None else (elem_sort or R)
+    sort = I if cls is not None else (R if elem_sort is None else elem_sort)
     if length is None:
         length = z3.IntVal(0)
     if arr is None:
@@ -158,6 +169,12 @@ def symlist_extend(ex, st, ref, other, node=None):
     d = st.heap[ref.sid]
     if d.owner != "fresh":
         st.writes.append((d.owner, "list.extend", getattr(node, "lineno", 0)))
+    from .core import SeqV
+    if isinstance(other, SeqV) and d.cls is None:
+        j = z3.Int("j!ext")
+        arr = z3.Lambda([j], z3.If(j < d.length, z3.Select(d.arr, j), lit(other.getter(ex, st, j - d.length))))
+        st.heap[ref.sid] = SymListData(d.length + other.length, arr, d.cls, d.owner)
+        return
     if not isinstance(other, SLRef):
         raise Undecided("extend with a non-symbolic list")
     o = st.heap[other.sid]
